@@ -220,6 +220,19 @@ fn eval_purity(b: &[u8], between: &[Vec<u8>]) -> Vec<(String, String)> {
     }
     let second = dec_bytes(b);
     let third = dec_reader(b, &[], 64).map(|x| x.0);
+    // ... and right after a sibling that differs from it in one early bit only (same tail, same
+    // length): a decoder that recognises "the same message again" by part of it must not
+    if first == second && b.len() >= 7 {
+        for flip in [6usize, 9, 17, 30] {
+            let mut sib = b.to_vec();
+            bits::flip(&mut sib, flip);
+            let _ = dec_bytes(&sib);
+            let again = dec_bytes(b);
+            if again != first {
+                return vec![(format!("C19/purity/{class}"), format!("decoded right after {} (the same bytes except bit {flip}) the result differs from the one obtained before", bits::hex(&sib)))];
+            }
+        }
+    }
     if first != second || first != third {
         vec![(format!("C19/purity/{class}"), format!("decoding the same bytes again (after {} other decodes) gives a different result", between.len()))]
     } else {
